@@ -25,6 +25,7 @@ package airgapped
 //@   epilogue $files = old($files) + 1
 //@ import client "github.com/lidofinance/dc4bc/client/types"
 //@ import dkg "github.com/lidofinance/dc4bc/dkg"
+//@ import leveldb "github.com/syndtr/goleveldb/leveldb"
 
 // (the state they change lives inside kyber objects, which are opaque here)
 //@ func (*github.com/lidofinance/dc4bc/dkg.DKG).ProcessDeals
@@ -56,6 +57,15 @@ package airgapped
 //@   epilogue $handled = (result1 == nil)
 //@   ensures $logged == old($logged)
 
+// a key pair is generated (and saved under the current password) only when the database holds none: any other failure
+// to load the stored keys - a wrong password above all - is reported and leaves the machine without a private key
+//@ func (*Machine).InitKeys
+//@   nosafety
+//@   safety C04
+//@   modifies *
+//@   modifies $ciphers, $bufc
+//@   assert@call GenerateKeys[C04.wrongpw] errIs(loc(err), leveldb.ErrNotFound)
+
 //@ func (*Machine).ProcessOperation
 //@   nosafety
 //@   requires wfMachine(am)
@@ -65,7 +75,7 @@ package airgapped
 //@   modifies $files
 //@   ensures[C12.publish] result1 == nil ==> $files == old($files) + 1
 //@   ensures[C12.log.once] $logged <= old($logged) + 1
-//@   ensures[C12.log.success] result1 != nil && !$handled ==> $logged == old($logged)
+//@   ensures[C12.log.success,C18.airgapped.noop] result1 != nil && !$handled ==> $logged == old($logged)
 //@   ensures[C12.log.replay] !storeOperation ==> $logged == old($logged)
 
 // ---- step handlers
